@@ -105,9 +105,9 @@ Print Assumptions c39_unowned_refused.
    run of a well-formed in-order script satisfies them (checked here on a concrete script of the
    two-slot model; the general statements are the theorems above) *)
 Definition ex_script_model : option sys :=
-  let w1 := Entry true 12 (HUser false (hx "7531") (hx "61") 0%Z 0%Z) (hx "0101") None in
-  let w2 := Entry true 12 (HUser false (hx "7531") (hx "62") 0%Z 0%Z) (hx "0102") None in
-  let fence := Entry true 12 (HFence 12 0) (hx "0115") None in
+  let w1 := Entry true 12 (HUser false (hx "7531") (hx "61") 0%Z 0%Z) (hx "0101") None None in
+  let w2 := Entry true 12 (HUser false (hx "7531") (hx "62") 0%Z 0%Z) (hx "0102") None None in
+  let fence := Entry true 12 (HFence 12 0) (hx "0115") None None in
   let y1 := sys_step sys0 SStartDelta in
   match y1 with
   | Some y =>
